@@ -572,6 +572,7 @@ class Emitter:
         self.assigns = [(parse_expr(a), b) for a, b in assigns]
         self.state, self.ret = state, ret
         self.locals = set(locals_)
+        self.on_break = self.on_continue = self.on_end = None   # Lean terms for loop bodies
 
     # -------------------------------------------------------------- expressions
     def subst(self, tmpl, b, ctx="v"):
@@ -664,9 +665,15 @@ class Emitter:
     def blk(self, stmts, pure=False):
         """translate a statement list in tail position"""
         if not stmts:
+            if self.on_end is not None and not pure:
+                return self.on_end
             return self.result(None, pure)
         s, rest = stmts[0], stmts[1:]
         k = s[0]
+        if k == "break" and self.on_break is not None and not pure:
+            return self.on_break
+        if k == "continue" and self.on_continue is not None and not pure:
+            return self.on_continue
         if k == "return":
             return self.result(s[1], pure=False) if not pure else self._no("return inside a value block")
         if k == "expr":
